@@ -302,7 +302,7 @@ class Interp:
                 r = self.call_method_ast(v, "__len__", [], {})
                 return self.truth(r)
             return z3.BoolVal(True)
-        if isinstance(v, (VFunc, VClass, VModule, VRec, VUn, VOpaque, VExc)):
+        if isinstance(v, (VFunc, VClass, VModule, VRec, VUn, VOpaque, VExc, VNaN)):
             return z3.BoolVal(True)
         raise Unsupported("truth of %s" % type(v).__name__)
 
@@ -326,6 +326,8 @@ class Interp:
     def eq(self, a, b):
         if isinstance(a, VUndef) or isinstance(b, VUndef):
             return self.undef_bool()
+        if isinstance(a, VNaN) or isinstance(b, VNaN):
+            return z3.BoolVal(False)          # nan != everything, itself included
         if a is b and not isinstance(a, (VReal,)):
             return z3.BoolVal(True)
         if _is_j(a) or _is_j(b):
@@ -417,6 +419,8 @@ class Interp:
                 b = b.val()
         elif isinstance(a, VOpt) or isinstance(b, VOpt):
             a, b = self.force(a), self.force(b)
+        if (isinstance(a, VNaN) and (is_num(b) or isinstance(b, VNaN))) or (isinstance(b, VNaN) and is_num(a)):
+            return z3.BoolVal(False)          # every ordering comparison with nan is False
         if isinstance(a, VNone) or isinstance(b, VNone):
             self.raise_exc("TypeError", "ordering comparison with None")
         if is_num(a) and is_num(b):
